@@ -27,8 +27,10 @@ ASSUMPTIONS = ['families.key_ok / val_ok / norm_val are the independent '
                'representability predicate and normal form']
 
 ENTRY_M = ['setitem', 'insert', 'setdefault', 'update-dict', 'update-pairs',
-           'ctor-dict', 'ctor-pairs', 'setstate']
-ENTRY_S = ['add', 'sinsert', 'supdate', 'ctor-list', 'setstate']
+           'ctor-dict', 'ctor-pairs', 'setstate', 'update-container',
+           'setstate-separator']
+ENTRY_S = ['add', 'sinsert', 'supdate', 'ctor-list', 'setstate',
+           'update-container', 'setstate-separator']
 
 
 def must_see(tier):
@@ -159,6 +161,39 @@ def do_write(fam, impl, kind, c, entry, k, v):
         return call(c, 'sinsert', (k,)), c
     if entry == 'supdate':
         return call(c, 'supdate', ([k],)), c
+    if entry == 'update-container':
+        # the datum arrives inside ANOTHER BTrees container (of a family
+        # that can hold it): what the source accepted proves nothing about
+        # the target's types
+        if is_mapping:
+            # key datum: object-keyed source; value datum: the same key
+            # type with object values
+            if not fam.key_ok(k) or fam.kc == 'O' or \
+                    (fam.kc + 'O') not in families.FAMILY_NAMES:
+                sname = 'OO'
+            else:
+                sname = fam.kc + 'O'
+            sfam = families.get(sname)
+            src = sfam.cls('Bucket' if id(k) % 2 else 'BTree', impl)()
+            src[k] = v
+        else:
+            sfam = families.get('OO')
+            src = sfam.cls('Set' if id(k) % 2 else 'TreeSet', impl)()
+            src.add(k)
+        return call(c, 'update' if is_mapping else 'supdate', (src,)), c
+    if entry == 'setstate-separator':
+        # a two-leaf tree state whose SEPARATOR is the datum
+        fresh = cls()
+        lcls = fam.cls('Bucket' if is_mapping else 'Set', impl)
+        gk = [x for x in fam.key_universe(None, n=6, flavour='int')
+              if x is not None][:2] if False else None
+        leafa, leafb = lcls(), lcls()
+        st = ((leafa, k, leafb), leafa)
+        try:
+            fresh.__setstate__(st)
+            return ('ok', None, None), fresh
+        except Exception as e:
+            return ('exc', type(e).__name__, e), c
     if entry == 'setstate':
         # a one-leaf state holding only the datum
         fresh = cls()
@@ -179,6 +214,21 @@ def do_write(fam, impl, kind, c, entry, k, v):
 
 def run_case(fam, impl, kind, entry, pos, lab, datum, populated, rng, rec):
     is_mapping = kind in families.MAPPING_KINDS
+    if entry == 'setstate-separator':
+        ok_ = fam.key_ok(datum) if pos == 'key' else True
+        if kind not in families.TREE_KINDS or pos != 'key' or ok_ or \
+                fam.kc == 'O':
+            entry = 'setstate'
+        else:
+            populated = False
+    if entry == 'update-container':
+        # the source (object-keyed / object-valued) must be able to hold it
+        if pos == 'key' and not families.get('OO').key_ok(datum):
+            entry = 'update-pairs' if is_mapping else 'supdate'
+        elif pos == 'key' and isinstance(datum, float) and datum != datum:
+            entry = 'update-pairs' if is_mapping else 'supdate'
+        elif fam.name == 'fs' and pos == 'value':
+            entry = 'update-pairs'
     # object keys of a foreign type are representable but not comparable with
     # the keys already there: not this property's business
     if fam.kc == 'O' and pos == 'key' and populated and not isinstance(
@@ -229,7 +279,7 @@ def run_case(fam, impl, kind, entry, pos, lab, datum, populated, rng, rec):
     def tag():
         if is_index:
             return 'F15'
-        if entry == 'setstate' and (impl == 'py' or (
+        if entry.startswith('setstate') and (impl == 'py' or (
                 fam.kc == 'O' and pos == 'key')):
             return 'F17'
         if impl == 'py' and fam.vc == 'F' and pos == 'value' and \
